@@ -615,7 +615,7 @@ pub fn run(ctx: &RunCtx) -> i32 {
         exhaustive: false,
     };
     let secrets = secrets(ctx.seed);
-    let n = ctx.tier.sz(600, 60_000);
+    let n = ctx.tier.sz(4000, 240_000);
     let per = 10u64;
     let total = par_run(ctx.workers, n.div_ceil(per), |j, r| {
         let rt = new_runtime();
@@ -627,6 +627,9 @@ pub fn run(ctx: &RunCtx) -> i32 {
             judge(&rt, r, &case);
             r.sample(cclass, || json!({"fields": form.fields.iter().map(|(n, v)| format!("{n}={}", &v[..v.len().min(60)])).collect::<Vec<_>>(), "file_len": form.file.len(), "boundary": form.boundary, "policy": policy}));
             for (op, f) in variants(&mut g, &form, &policy, &secrets) {
+                if sample_skip() {
+                    continue;
+                }
                 let len = f.encode().len();
                 let case = Case { form: f, framing: gen_framing(&mut g, len), op, content_class: cclass.into(), secrets: secrets.clone() };
                 judge(&rt, r, &case);
